@@ -57,6 +57,7 @@ pub struct Player {
     pub mid_block: bool,
     pub last_ledger: Value,
     pub light_obs: bool,
+    pub skip_obs: bool,
 }
 
 fn hexs(b: &[u8]) -> String {
@@ -105,6 +106,7 @@ impl Player {
             mid_block: false,
             last_ledger: json!({"bals": [], "supply": []}),
             light_obs: false,
+            skip_obs: false,
         };
         for a in ["idx", "ctrl", "dead"] {
             p.u_addr.insert(a.to_string());
@@ -290,6 +292,18 @@ impl Player {
     // ------------------------------------------------------------------------------------------
     // one step
 
+    pub fn raw_tx_public(&mut self, step: &Value) -> Vec<u8> {
+        self.raw_tx(step).0
+    }
+
+    /// like `step` but without taking the projection (used to reach a state quickly)
+    pub fn step_noobs(&mut self, step: &Value) -> Value {
+        self.skip_obs = true;
+        let ev = self.step(step);
+        self.skip_obs = false;
+        ev
+    }
+
     pub fn step(&mut self, step: &Value) -> Value {
         self.note_common(step);
         let op = step["op"].as_str().unwrap_or("");
@@ -334,8 +348,10 @@ impl Player {
             }
             _ => json!({"ev": "Unknown", "res": "err"}),
         };
-        let obs = self.obs();
-        ev["obs"] = obs;
+        if !self.skip_obs {
+            let obs = self.obs();
+            ev["obs"] = obs;
+        }
         ev
     }
 
